@@ -22,14 +22,20 @@ Rneg = dict(R, shift=1000)
 Qneg = dict(Q, shift=1000)
 
 
+# the same scripts on a histogram with 40 buckets (bucket lookup, snapshot assembly and flush loops over a long list)
+Qwide = dict(Q, bounds=list(range(1, 41)))
+
+
 def run(ctx):
     exe = build_harness()
     stats, samples = new_stats(), []
     if ctx.quick:
+        run_scenario(ctx, "C03", exe, Qwide, "Qwide", stats, samples, model=False, nrandom=60, vias=("direct",), liveness=False, check=False)
         run_scenario(ctx, "C03", exe, Q, "Q", stats, samples, model=True, nrandom=200, vias=("direct",), liveness=True)
         run_scenario(ctx, "C03", exe, R, "R", stats, samples, model=False, nrandom=300, vias=("direct", "vec"), liveness=False)
         run_scenario(ctx, "C03", exe, Qneg, "Qneg", stats, samples, model=False, nrandom=200, vias=("direct",), liveness=False, check=False)
     else:
+        run_scenario(ctx, "C03", exe, Qwide, "Qwide", stats, samples, model=False, nrandom=2000, vias=("direct", "vec"), liveness=False, check=False)
         run_scenario(ctx, "C03", exe, Qneg, "Qneg", stats, samples, model=False, nrandom=3000, vias=("direct", "vec"), liveness=False, check=False)
         run_scenario(ctx, "C03", exe, Rneg, "Rneg", stats, samples, model=False, nrandom=5000, vias=("direct",), liveness=False, check=False)
         run_scenario(ctx, "C03", exe, Q, "Q", stats, samples, model=True, nrandom=3000, vias=("direct", "vec", "registry"), liveness=True)
